@@ -88,8 +88,12 @@ def task(args):
     b = bounds(tier)
     p = Partial()
     states = set()
-    for bud in ic.budgets(geo):
-        for cfgs in config_sets(b["pairs"], seed):
+    work = [(bud, cfgs) for bud in ic.budgets(geo) for cfgs in config_sets(b["pairs"], seed)]
+    if geo[0] <= ic.DEEP_N:
+        # long runs of small geometries (late epochs: counters far from their start values), no / one side config
+        work += [(bud, cfgs) for bud in ic.deep_budgets(geo) for cfgs in config_sets(b["pairs"], seed) if len(cfgs) <= 1]
+    for bud, cfgs in work:
+        if True:
             for plain in ((False, True) if not cfgs else (False,)):
                 kind, detail, ntr, proj = check_one(geo, bud, cfgs, plain=plain, with_batches=len(cfgs) <= 1,
                                                     states=states)
@@ -113,7 +117,7 @@ def run(run):
     geos.sort(key=lambda g: -g[0])  # big ones first for load balance
     run.pmap(task, [(g, run.tier, run.seed) for g in geos])
     run.extra.update(bounds=dict(N=f"1..{b['maxN']}", B="1..N", drop_last="F,T", dlbs="None or kB<=N",
-                                 epochs="1..3", updates="1..2*ceil(N/B)+1", samples="1..2N+1",
+                                 epochs="1..3 (+5, 7 and the matching update / sample budgets for N<=4)", updates="1..2*ceil(N/B)+1", samples="1..2N+1",
                                  config_sets=len(config_sets(b['pairs'], run.seed))),
                      geometries=len(geos))
     run.assumptions += [
